@@ -537,7 +537,7 @@ def sel_str(t):
 def sel_describe(inp, obs):
     p = inp[2]
     return '%s on population %s (%s per case), %d draws seed %d; observed [[index or error code, count]..]' % (
-        sel_str(p[2]), p[1], 'scores' if p[0] else 'errors', inp[1], inp[0])
+        sel_str(p[2]), p[1], ('scores' if p[0] % 2 else 'errors') + (', neighbouring individuals share a genome' if p[0] >= 2 else ''), inp[1], inp[0])
 
 def sel_kind(t):
     return {0: 'best', 1: 'worst', 2: 'random', 3: 'tournament', 4: 'lexicase', 5: 'weighted', 6: 'weighted-pair', 8: 'dyn-weighted'}.get(t[0], '?')
@@ -677,3 +677,39 @@ PROPS['C09'] = dict(
     level_note='Trusted: Coq kernel; harness+driver; rayon scheduling and Rust aliasing guarantees (schedules sampled).',
     technique='Coq theorems over the repeat combinator (atomic replace, call chain) + instrumented child-maker correspondence under serial and rayon-parallel stepping',
     design_ref='DESIGN.md §6 C09')
+
+# ---------------------------------------------------------------------------
+# C16
+C16_OPS = ['Best', 'Worst', 'Random', 'Tournament(2)', 'Lexicase(2)', 'WeightedPair(Best:1, Random:2)', 'DynWeighted[Tournament(3):2, Lexicase(1):3]', 'WithRate Vec<bool>',
+           'WithOneOverLength Bitstring', 'Umad Vector', 'Umad Bitstring (sometimes empty parent)', 'UniformXo [Vec;2]', 'TwoPointXo (Vec,Vec)', 'UniformXo [Bitstring;2]',
+           'TwoPointXo [Bitstring;2]', 'collection generator Vec<i64>', 'Bitstring::random', 'Bitstring::random_with_probability', 'Plushy collection of a gene generator',
+           'OneOfCloning', 'ChooseCloning', 'IndividualGenerator', 'Select(Tournament).then(GenomeExtractor).then(Mutate(WithRate))', 'GenomeScorer over a pipeline',
+           'Bitstring collection of BoolGenerator', 'WithRate and UniformXo interleaved on one generator']
+def c16_describe(inp, obs):
+    if inp[0] == 0:
+        return '%s, seed %d, data %s; observed [run from a fresh value, run from another fresh value, run from an already-used value], each [[3 results], next generator word]' % (C16_OPS[inp[1]], inp[2], inp[3])
+    return push_describe([0, inp[1], inp[2], []], obs) + ' -- run under every permutation of the %d input declarations; observed [class, state, errkind, all runs equal]' % inp[3]
+def c16_case_of(inp, obs):
+    return [inp, obs]
+def c16_post_batch(inputs, obs, verdicts):
+    # Push cases: the printed output must match the model too (same as C01)
+    idx = [i for i, inp in enumerate(inputs) if inp[0] == 1]
+    sub_in = [[0, inputs[i][1], inputs[i][2], []] for i in idx]
+    sub_ob = [obs[i] for i in idx]
+    sub_v = [verdicts[i] for i in idx]
+    push_post_batch(sub_in, sub_ob, sub_v)
+    for i, v in zip(idx, sub_v):
+        verdicts[i] = v
+PROPS['C16'] = dict(
+    corr='CorrC16', judge='(judge_cases judge)', post_batch=c16_post_batch,
+    coq_targets=['theories/Props/C16.vo', 'theories/Corr/CorrC16.vo'],
+    describe=c16_describe, no_shrink=True, nontrivial=lambda i, o: True,
+    classify=lambda i, o: ('op:%s' % C16_OPS[i[1]]) if i[0] == 0 else 'push-input-order',
+    bucket=lambda i, o: [('op=%s' % C16_OPS[i[1]]) if i[0] == 0 else 'push permutations=%d' % i[3]],
+    rule='26 selectors, mutators, recombinators, generators and compositions exported by the three crates (table in harness/src/c16.rs) x 12 (quick) / 200 (thorough) seeds: three consecutive calls from (A) a fresh operator value, (B) another fresh value with a generator cloned from the same seed, (C) a value that was already used five times with another generator - results and the next word of the generator must all coincide (a consult of the thread RNG, global state, or a cache inside the operator shows up as a difference); one entry interleaves two operators on one generator. Push: 80 (quick) / 600 (thorough) random nested programs with 2-3 bound inputs, evaluated under EVERY permutation of the input declarations and twice from each built state: all runs must coincide and equal the model run (stacks, output bytes, outcome).',
+    trusted=['that equal observable results and an equal next word mean equal generator states (SplitMix64 state = one word)'],
+    assumptions=['"the code is a function of its arguments" is decided code-against-code: a Gallina model is deterministic by construction and cannot carry that claim'],
+    level_text='Theorems (Props/C16.v): named inputs resolve independently of declaration order (lookup is invariant under permutation of a duplicate-free list) and therefore the whole evaluation of any program is - same stacks, output, limits, outcome, step count; combinators have no hidden state (the threaded state after a composition is what its parts left). The remaining half - no randomness or state other than the generator handed in - is decided by double runs from cloned generators on fresh and on used operator values, and by permuting input declarations.',
+    level_note='Proof for input-order independence and state threading; correspondence-only (code against code) for "nothing else influences the outcome". Trusted: Coq kernel; harness+driver.',
+    technique='Coq simulation proof (evaluation invariant under permutation of input declarations) + code-against-code double-run / reuse / permutation correspondence',
+    design_ref='DESIGN.md §6 C16')
